@@ -2,12 +2,16 @@
 mod astwalk;
 mod compat;
 mod coord;
+mod digest;
+mod execb;
 mod gram;
 mod lex;
 mod limits;
 mod linecol;
 mod names;
 mod parse;
+mod sb;
+mod scalars;
 mod strs;
 mod util;
 
@@ -34,6 +38,12 @@ fn main() {
         "compat-record" => compat::record(rest),
         "names-replay" => names::replay(rest),
         "names-record" => names::record(rest),
+        "exec-chunks" => execb::chunks(rest),
+        "scalars-replay" => scalars::replay(rest),
+        "scalars-revalidate" => scalars::revalidate(rest),
+        "digest" => digest::run(rest),
+        "sb-replay" => sb::replay(rest),
+        "sb-corpus" => sb::corpus(rest),
         "str-replay" => strs::replay(rest),
         "str-record" => strs::record(rest),
         "str-roundtrip" => strs::roundtrip(rest),
